@@ -10,6 +10,7 @@ package main
 
 import (
 	"context"
+	"errors"
 	"fmt"
 	"net"
 	"runtime"
@@ -89,6 +90,15 @@ func (b *blockingCM) Headers(index types.ChainIndex, max uint64) ([]types.BlockH
 	return nil, 0, nil
 }
 
+// History is what the sync loop calls first on every tick; an error there is fatal for Run.
+func (b *blockingCM) History() ([32]types.BlockID, error) {
+	if g := b.tb.histGate; g != nil {
+		<-g
+		return [32]types.BlockID{}, errors.New("injected: history unavailable")
+	}
+	return b.Manager.History()
+}
+
 // ---------------------------------------------------------------- peer store wrapper
 
 type countingStore struct {
@@ -109,6 +119,9 @@ type bedConfig struct {
 	MaxIn     int
 	MaxOut    int
 	V4Bits    int
+	// FailHistory: the sync loop runs (1ms interval) and its first ChainManager.History call
+	// blocks until the harness lets it fail, after which Run shuts down by itself
+	FailHistory bool `json:",omitempty"`
 }
 
 type bed struct {
@@ -133,6 +146,9 @@ type bed struct {
 	nextRID  uint64
 
 	wake chan struct{} // poked on every observation
+
+	histGate chan struct{} // see bedConfig.FailHistory
+	sink     net.Listener  // a live gateway acceptor for Connect probes
 }
 
 func (tb *bed) bump() {
@@ -173,6 +189,10 @@ func newBedWith(cfg bedConfig, prefill func(syncer.PeerStore, gateway.Header), e
 		syncer.WithRPCTimeout(time.Minute),
 		syncer.WithConnectTimeout(10 * time.Second),
 	}
+	if cfg.FailHistory {
+		tb.histGate = make(chan struct{})
+		opts = append(opts, syncer.WithSyncInterval(time.Millisecond))
+	}
 	opts = append(opts, extra...)
 	hdr := gateway.Header{
 		GenesisID:  genesis.ID(),
@@ -186,6 +206,44 @@ func newBedWith(cfg bedConfig, prefill func(syncer.PeerStore, gateway.Header), e
 	tb.runDone = make(chan error, 1)
 	go func() { tb.runDone <- tb.s.Run() }()
 	return tb, nil
+}
+
+// sinkAddr returns the address of a live acceptor that completes the gateway handshake and then
+// holds the connection: a Connect to it can only fail because the syncer refuses to do it.
+func (tb *bed) sinkAddr() string {
+	if tb.sink == nil {
+		l, err := net.Listen("tcp", "127.0.0.1:0")
+		if err != nil {
+			return tb.l.Addr().String()
+		}
+		tb.sink = l
+		go func() {
+			for {
+				conn, err := l.Accept()
+				if err != nil {
+					return
+				}
+				go func() {
+					defer conn.Close()
+					conn.SetDeadline(time.Now().Add(5 * time.Second))
+					t, err := gateway.Accept(conn, gateway.Header{GenesisID: tb.genesis, UniqueID: gateway.GenerateUniqueID(), NetAddress: l.Addr().String()})
+					if err != nil {
+						return
+					}
+					conn.SetDeadline(time.Time{})
+					defer t.Close()
+					for {
+						st, err := t.AcceptStream()
+						if err != nil {
+							return
+						}
+						st.Close()
+					}
+				}()
+			}
+		}()
+	}
+	return tb.sink.Addr().String()
 }
 
 // waitFor polls cond (woken by observations, at least every 200µs) until it holds or d elapses.
